@@ -173,6 +173,11 @@ def feature_points(sh):
                 [sh["r"], 0, 8 * EPS]]
     elif k == "mesh":
         pts += [list(v) for v in sh["vs"][:4]]
+    if k in ("cylinder", "capsule", "cone", "ellipsoid", "box"):
+        # almost on the axis (radial offset 1e-6 and 1e-9 of the extent): deep inside, where formulas
+        # like sqrt(|p|^2 - z^2) or divisions by the radial distance lose everything
+        zmid = sh["h"] / 2 if k == "cone" else 0.0
+        pts += [[1e-6 * e[0], 0.0, zmid], [0.0, -1e-9 * e[1], zmid], [1e-9 * e[0], 1e-9 * e[1], zmid + 0.25 * e[2]]]
     return [[float(x) for x in p] for p in pts]
 
 
